@@ -213,6 +213,8 @@ def mk(op, ty, *args):
             return mk('extract', ty, hi + a.args[1], lo + a.args[1], a.args[2])
         if a.op in ('zext',) and hi < ibits(a.args[0].ty):
             return mk('extract', ty, hi, lo, a.args[0])
+        if a.op == 'select':
+            return mk('select', ty, a.args[0], mk('extract', ty, hi, lo, a.args[1]), mk('extract', ty, hi, lo, a.args[2]))
         if a.op == 'or' and len(a.args) == 2:
             # two values packed into one integer: or(shl(zext(H), s), zext(L)) with L narrower than s bits
             # (clang passes a pair of floats as one i64 / <2 x float>)
